@@ -11,9 +11,9 @@ CHECKS = {
   technique="property-based testing (rapid), stateful/model-based generation of edit histories against a reference model"),
  "C01": dict(
   category="translation_validation",
-  text="Per-program differential validation: for generated architectures (Rsize 8..64, R=1..3, N/M/L/O, WordSize overrides, opcode subsets of the co-implemented table, OnlyDestRegs with requirements derived from the program) and generated programs with in-range operands and per-retire input vectors, the text returned by Arch/Conproc/Rom/Ram.Write_verilog is executed clock by clock by /verif's Verilog interpreter and compared with procbuilder.VM after every retired instruction (pc, all registers, output registers); the optimised HDL must agree as well. Found the single-operand shift defect of the simulator (fixed) and D12 (recorded).",
+  text="Per-program differential validation: for generated architectures (Rsize 8..64, R=1..3, N/M/L/O, WordSize overrides, opcode subsets of the co-implemented table, OnlyDestRegs with requirements derived from the program) and generated programs with in-range operands and per-retire input vectors, the text returned by Arch/Conproc/Rom/Ram.Write_verilog is executed clock by clock by /verif's Verilog interpreter and compared with procbuilder.VM after every retired instruction (pc, all registers, output registers); the optimised HDL must agree as well. A second entry is an opcode-exhaustive structured sweep under the same oracle: every row of the co-implemented table x register size x R in 1..3 x port count / jump-ladder length x a grid of boundary data, one program per grid point executing the opcode once for every operand combination (quick: one data point per stratum chosen by VERIF_SEED, thorough: the whole grid of 6504 programs). Found the single-operand shift defect of the simulator (fixed) and D12 (recorded).",
   note="Trusted: /verif's Verilog interpreter (assumptions A1 power-up zero, A2 delays ignored), the co-implemented table (harness/c01/table.go), the retire-point definition. Opcodes outside the table are not compared.",
-  technique="differential property-based testing (rapid): emitted HDL under an interpreter vs the ISA simulator, lock-step at retire points; metamorphic check optimised vs unoptimised HDL"),
+  technique="differential property-based testing (rapid): emitted HDL under an interpreter vs the ISA simulator, lock-step at retire points; metamorphic check optimised vs unoptimised HDL; bounded-exhaustive structured generation (opcode x width x operand sweep) under the same oracle"),
  "C02": dict(
   category="translation_validation",
   text="Per-machine differential validation: generated multi-processor machines (built through the public editing API; i2rw/r2owa IO, fan-out, mixed external/internal sources) are rendered by the real Bondmachine.Write_verilog into a scratch directory, the file set is executed by /verif's Verilog interpreter under a protocol-abiding environment (generated input streams, gaps, output stalls) and the value sequences accepted on every external output are compared prefix-wise with bondmachine.VM under the same environment; the AST of the top module is checked to connect exactly the bonds (data, valid) and each received line must be the conjunction of exactly its sinks' received lines. Runs that enter the region of a recorded handshake finding are counted as excluded. Processors have up to five inputs and outputs (port fields of 1-3 bits in every combination), processor order may differ from domain order, and the simulator side may run under a single-valued per-opcode delay map (the 'regardless of how many cycles' clause).",
